@@ -23,7 +23,10 @@ MANIFEST = dict(
 KNOWN_PRED = {}
 
 GARBAGE_DECL = ['(x)', '[a]', '{a:b}', 'x(y)', 'x(y:1)', '$', '1px', '"s"', '#f00', ': red', '= 3', '* html', '.a', '@x y', '!', '! x',
-                'U+1F', '<!--', 'f(a;b)', '[;]', '{;}', '~=', 'url(x)', '100%', '--> x', '( ( ) [ ] )', 'x( "a;b" )', '\\;', '@@']
+                'U+1F', '<!--', 'f(a;b)', '[;]', '{;}', '~=', 'url(x)', '100%', '--> x', '( ( ) [ ] )', 'x( "a;b" )', '\\;', '@@',
+                # a name followed by junk before the colon
+                'color 3: red', 'color "x" #f00: red !important', 'margin 50% 2px: 0', 'top $: 1px', 'left , : 0', 'x 1px 2px: 3px',
+                'color #fff: blue', 'top 1: 2', 'color: red: blue', 'color red', 'top:: 1px', ':top: 1px', 'a b: c']
 GARBAGE_STMT = ['x(y){d:e}', '(y){d:e}', '[y]{d:e}', '$ {a:b}', 'a,,b{c:d}', 'a{{}}', '@unknown x;', '@unknown { a { b } }', '@import "late.css";',
                 '@charset "x";', '@namespace "late";', '1px{a:b}', '"s"{a:b}', '#{a:b}', '.{a:b}',
                 'a b c;', '@x (a;b) [c;d];', 'f(;){a:b}', '@page x x x { }', '@media {a{b:c}}', '@font-face;', 'a! {b:c}']
